@@ -450,7 +450,7 @@ Lemma ri_step st tr orc o st1 out evs :
   DevEI st1 ->
   step_with_d st orc o = Ok (st1, out, evs) -> GI st1 (tr ++ evs) /\ PI (tr ++ evs).
 Proof.
-  intros [[[HI Hn] HD] HC HL HDI] HS HG HP HD1 H. unfold step_with_d in H.
+  intros [[[HI Hn] HD] HC HL HDI HBI] HS HG HP HD1 H. unfold step_with_d in H.
   apply bind_ok in H as ([[s1 out1] evs1] & H1 & H). destruct (r_oracle s1); [|discriminate]. inv_ok.
   set (s0 := set_r_oracle st orc) in *.
   assert (HG0 : GI s0 tr) by (apply (gi_same st s0); [reflexivity|exact HG]).
@@ -544,7 +544,8 @@ Theorem resinv_from_init cfg st0 ops st tr :
 Proof.
   intros (Hcfg & Hmo & Hi & Hwf & Hr & HB). apply (run_resinv ops st0 st [] tr); try assumption.
   assert (HR0 : RunInv st0 []).
-  { constructor; [eapply rinve_init; eassumption|eapply init_cinv; eassumption|apply (WindowStep.init_inv _ _ Hi)|eapply di_init; eassumption]. }
+  { constructor; [eapply rinve_init; eassumption|eapply init_cinv; eassumption|apply (WindowStep.init_inv _ _ Hi)|eapply di_init; eassumption
+                 |eapply TraceRunBound.bi_init; eassumption]. }
   constructor; [exact HR0|eapply SessionInv.init_SessInv; exact Hi| |].
   - intros cl ss Hs. unfold init in Hi. apply bind_ok in Hi as (dl & _ & Hi). inv_ok. discriminate.
   - intros tr1 id2 L2 f i cl c0 tr2 E. destruct tr1; discriminate.
